@@ -136,7 +136,9 @@ let () =
       group_val := (if get "bval" <> "-" then get "bval" else goval);
       group_simple := (if get "bsimple" <> "-" then get "bsimple" else get "simple");
       group_ring := (if get "bring" <> "-" then get "bring" else get "ring");
-      if new_group || (ogc_every > 0 && !lineno mod ogc_every = 0) then begin
+      (* class inscribed (member orders / ring starts of one configuration): the reference verdict on every line *)
+      if cls = "inscribed" then count ("inscribed_impl_" ^ goval);
+      if new_group || cls = "inscribed" || (ogc_every > 0 && !lineno mod ogc_every = 0) then begin
         let o = b2s (ogc_valid g) in
         count "ogc_evaluated";
         if new_group then group_ogc := o;
@@ -183,5 +185,5 @@ let () =
       ["model_valid"; "model_rule_nan"; "model_rule_inf"; "model_rule_two_points"; "model_rule_ring_empty";
        "model_rule_ring_closed"; "model_rule_ring_simple"; "model_rule_ring_nested"; "model_rule_interior_in_exterior";
        "model_rule_interior_connected"; "model_rule_rings_multi_touch"; "model_rule_polys_multi_touch";
-       "simple_0"; "simple_1"; "ring_0"; "ring_1"];
+       "simple_0"; "simple_1"; "ring_0"; "ring_1"; "inscribed_impl_0"; "inscribed_impl_1"];
   finish ()
